@@ -316,11 +316,32 @@ def rule_b(chk, t):
         p = pat.escapes_region(g, h, reg, lambda n: n in fin or n in regs, exits=('exit',), avoid_edge=pending_edge)
         chk.ob('b', t.ref, 'the clause continues the caller or attempts completion unless other handlers are pending', p is None, loc(t, h.ast),
                path=pat.path_lines(p, h) if p else None, discr=f'complete-or-continue:{"/".join(names or ("*",))}')
+    # a finished/failed task that has a caller always hands control back to the caller (the caller's own share of the waiting
+    # count is only released when the caller is stepped again), whatever else is tested in the clause
+    for h in pat.except_nodes(g):
+        names = handler_names(h.ast)
+        if names and set(names) & {'KeyboardInterrupt', 'SystemExit'}:
+            continue
+        reg = pat.region(g, 'except', h.ast)
+        regs_p = [n for n in reg if n.kind == 'stmt' and any(src(c.args[0]).replace(' ', '').startswith(f'({ev},{parent},') for _r, c in pat.method_calls(n.ast, 'registerTask') if c.args)]
+        p = pat.escapes_region(g, h, reg, lambda n: n in regs_p, exits=('exit',),
+                               avoid_edge=pat.test_edge(lambda tt, pol: pol == 'F' and src(tt) == parent))
+        chk.ob('b', t.ref, 'in this clause a task that has a caller re-registers the caller on every path (no further condition)', p is None and bool(regs_p),
+               loc(t, h.ast), path=pat.path_lines(p, h) if p else None, discr=f'caller-always-continued:{"/".join(names or ("*",))}')
     # timeout delivery: the caller is stepped again whatever it yields after catching the exception
     thr = [n for n in g.nodes if n.kind == 'stmt' and any((call_name(c) or '').endswith('.throw') for c in calls_in(n.ast))]
     for n in thr:
-        regs = [m for m in g.nodes if m.kind == 'stmt' and any(True for _r, _c in pat.method_calls(m.ast, 'registerTask'))]
+        regs = [m for m in g.nodes if m.kind == 'stmt' and (any(True for _r, _c in pat.method_calls(m.ast, 'registerTask')) or
+                                                           any(a == 'task' and recv.endswith('state') for recv, a, _v in pat.attr_store(m.ast)))]
         p = Q.escapes(g, [n], lambda m: m in regs, exits=('exit',), exc=())
+        # a generator yielded after the throw (another call()/wait()) is handed to its wait state, not stepped as a value
+        rv_ = src(n.ast.targets[0]) if isinstance(n.ast, ast.Assign) else None
+        gen_edges = [e for m in g.nodes if m.kind == 'test' and Q.reaches(n, m) for e in m.succ if e.kind == 'T' and rv_ and
+                     src(m.ast).replace(' ', '') == f'isinstance({rv_},GeneratorType)' and Q.reachable_without(g, m, start=n, avoid_node=lambda x: rv_ in Q.node_defs(x) and x is not n) is not None]
+        hand = [m for m in g.nodes if m.kind == 'stmt' and any(a == 'task' and recv.endswith('state') and src(v) == rv_ for recv, a, v in pat.attr_store(m.ast))]
+        okg = bool(gen_edges) and all(e.dst in hand or Q.escapes(g, [e.dst], lambda m: m in hand, exits=('exit',), exc=()) is None for e in gen_edges)
+        chk.ob('b', t.ref, 'a generator yielded by the caller after the timeout was thrown into it (another call()/wait()) is handed to its wait state',
+               okg, loc(t, n.ast), discr='throw-then-call')
         chk.ob('b', t.ref, 'after throwing the timeout into the caller, the caller is stepped again whatever it yields', p is None,
                loc(t, n.ast), path=pat.path_lines(p, n) if p else None, discr='throw-continue')
 
